@@ -131,12 +131,18 @@ where
     pub(crate) fn process(&self) -> Vec<A::Effect> {
         self.executor.run_all();
 
-        while let Some(capability_event) = self.capability_events.receive() {
+        loop {
             #[cfg(crux_verif)]
             crate::verif::point("core.process.event");
             #[cfg(crux_verif)]
             let model_scope = crate::verif::LockScope::new("model");
+            // Take the model lock before taking the next event off the queue: when several
+            // threads run this loop at once, events are then applied in the order they were
+            // emitted (taking the event first lets another thread apply a later event earlier).
             let mut model = self.model.write().expect("Model RwLock was poisoned.");
+            let Some(capability_event) = self.capability_events.receive() else {
+                break;
+            };
             let command = self
                 .app
                 .update(capability_event, &mut model, &self.capabilities);
